@@ -53,7 +53,79 @@ partial def toBoolDD : DD Val → DD Bool
   | .leaf v => .leaf (v == .b true)
   | .node p cs => .node p (cs.map toBoolDD)
 
+/-! ### large product sets (closed form, no table) -/
+
+/-- `5:0134,4:012,...` (top variable first) -> per variable (size, sorted allowed values) -/
+def parseProd (str : String) : Option (List (Nat × List Nat)) :=
+  (str.splitOn ",").mapM (fun part =>
+    match part.splitOn ":" with
+    | [sz, ds] => do
+      let n ← sz.toNat?
+      let vals := ds.toList.map (fun ch => ch.toNat - '0'.toNat)
+      if vals.all (· < n) && !vals.isEmpty then some (n, vals) else none
+    | _ => none)
+
+/-- number of members -/
+def prodCard (p : List (Nat × List Nat)) : Nat := p.foldl (fun acc x => acc * x.2.length) 1
+
+/-- the member of rank `i` (lexicographic order, top variable most significant): mixed radix over the |A_k| -/
+def prodElem (p : List (Nat × List Nat)) (i : Int) : Option (List Nat) :=
+  if i < 0 || i ≥ (prodCard p : Int) then none
+  else
+    let rec go (p : List (Nat × List Nat)) (i : Nat) : List Nat :=
+      match p with
+      | [] => []
+      | (_, vals) :: rest =>
+        let w := prodCard rest
+        (vals.getD (i / w) 0) :: go rest (i % w)
+    some (go p i.toNat)
+
+/-- rank of an assignment, `none` when it is not a member -/
+def prodRank (p : List (Nat × List Nat)) (ds : List Nat) : Option Nat :=
+  let rec go (p : List (Nat × List Nat)) (ds : List Nat) (acc : Nat) : Option Nat :=
+    match p, ds with
+    | [], [] => some acc
+    | (_, vals) :: rest, d :: ds' =>
+      match vals.findIdx? (· == d) with
+      | some q => go rest ds' (acc * vals.length + q)
+      | none => none
+    | _, _ => none
+  go p ds 0
+
+def stepProd (s : St) (ln : Nat) (toks : List String) : Option St :=
+  match toks with
+  | "prodelem" :: i :: "->" :: rest => some <| Id.run do
+    let some p := (s.scalar? "prodset").bind parseProd | return s.diff ln "parse" "prodelem-without-prodset"
+    let some idx := i.toInt? | return s.diff ln "parse" s!"bad-index {i}"
+    let exp := prodElem p idx
+    let s := (s.tick).bump (if exp.isSome then "prodelem.member" else "prodelem.outside")
+    let expStr := match exp with | some ds => " ".intercalate (ds.map toString) | none => "none"
+    let gotStr := " ".intercalate rest
+    if expStr == gotStr then return s
+    else return s.diff ln "get-element" s!"product-set index={i} members={prodCard p} expected={expStr} got={gotStr}"
+  | "prodcard" :: how :: n :: _ => some <| Id.run do
+    let some p := (s.scalar? "prodset").bind parseProd | return s.diff ln "parse" "prodcard-without-prodset"
+    let s := (s.tick).bump s!"prodcard.{how}"
+    if n.toNat? == some (prodCard p) then return s
+    else
+      let kind := if how == "header" then "header-cardinality" else "cardinality"
+      return s.diff ln kind s!"product-set how={how} expected={prodCard p} got={n}"
+  | "prodindex" :: rest => some <| Id.run do
+    let some p := (s.scalar? "prodset").bind parseProd | return s.diff ln "parse" "prodindex-without-prodset"
+    let ds := rest.takeWhile (· != "->")
+    let got := (rest.dropWhile (· != "->")).drop 1
+    let digits := ds.filterMap String.toNat?
+    if digits.length != ds.length then return s.diff ln "parse" s!"bad-digits {ds}"
+    let exp := match prodRank p digits with | some r => toString r | none => "inf"
+    let s := (s.tick).bump (if exp == "inf" then "prodindex.nonmember" else "prodindex.member")
+    if got == [exp] then return s
+    else return s.diff ln "op-result" s!"product-set evaluate at=[{" ".intercalate ds}] expected={exp} got={" ".intercalate got}"
+  | _ => none
+
 def step (s : St) (ln : Nat) (toks : List String) : Option St :=
+  match stepProd s ln toks with
+  | some s' => some s'
+  | none =>
   match toks with
   | "elem" :: x :: i :: "->" :: rest => some <| Id.run do
     let some (fname, t) := s.table? x | return s.diff ln "elem" s!"no-table-for {x}"
